@@ -244,6 +244,8 @@ var mpuModel = porcupine.Model{
 			return out.OK && out.Parts == st.parts, st
 		case "complete-refused": // by a disk error: no effect on the upload
 			return true, st
+		case "objseen": // the completed object has been read: the completion has taken effect
+			return true, mpuState{gone: true}
 		case "listed": // ListMultipartUploads shows exactly the pending uploads
 			return out.OK == !st.gone, st
 		default: // complete
@@ -276,27 +278,29 @@ var mpuModel = porcupine.Model{
 }
 
 type history struct {
-	seq      int64
-	parts    map[string][]porcupine.Operation // partition -> ops
-	desc     map[string][]string
-	bodies   map[string][]byte // md5 -> bytes of every body a client ever sent or the server assembled
-	withMeta map[string]bool   // md5 of bodies uploaded by a plain PUT, which carries x-amz-meta-sum
-	verOf    map[string]string // version id -> md5 of the put that got it
-	verKey   map[string]string // version id -> bucket/key
-	ids      []string
-	delVer   map[string]bool // version ids some client has started to delete
-	taint    map[string]bool // partitions whose content an injected disk fault made indeterminate
-	snap     bool            // snapshot run: operations on keys are also recorded in the partition of all keys
-	noSnap   bool
-	snapKeys []string   // the key partitions, in the order of their index in the snapshot partition
-	recycles []*recycle // bucket delete+re-create operations (the bucket may be absent while one is in flight)
+	seq         int64
+	parts       map[string][]porcupine.Operation // partition -> ops
+	desc        map[string][]string
+	bodies      map[string][]byte // md5 -> bytes of every body a client ever sent or the server assembled
+	withMeta    map[string]bool   // md5 of bodies uploaded by a plain PUT, which carries x-amz-meta-sum
+	verOf       map[string]string // version id -> md5 of the put that got it
+	verKey      map[string]string // version id -> bucket/key
+	ids         []string
+	delVer      map[string]bool   // version ids some client has started to delete
+	taint       map[string]bool   // partitions whose content an injected disk fault made indeterminate
+	completeSum map[string]string // md5 of the bytes a complete assembles -> upload id
+	created     map[string]int64  // upload id -> return stamp of its initiation (uploads of the set-up: absent)
+	snap        bool              // snapshot run: operations on keys are also recorded in the partition of all keys
+	noSnap      bool
+	snapKeys    []string   // the key partitions, in the order of their index in the snapshot partition
+	recycles    []*recycle // bucket delete+re-create operations (the bucket may be absent while one is in flight)
 }
 
 type recycle struct{ call, ret int64 }
 
 func newHistory() *history {
 	return &history{parts: map[string][]porcupine.Operation{}, desc: map[string][]string{}, bodies: map[string][]byte{"d41d8cd98f00b204e9800998ecf8427e": {}}, withMeta: map[string]bool{},
-		verOf: map[string]string{}, verKey: map[string]string{}, delVer: map[string]bool{}, taint: map[string]bool{}}
+		verOf: map[string]string{}, verKey: map[string]string{}, delVer: map[string]bool{}, taint: map[string]bool{}, completeSum: map[string]string{}, created: map[string]int64{}}
 }
 
 func (h *history) tick() int64 { h.seq++; return h.seq }
@@ -565,6 +569,13 @@ func (r *Run) execLin(ci, oi int, op *Op) {
 				return
 			}
 			val = r.checkReadIntegrity(resp, head, m)
+			if id, ok := h.completeSum[val]; ok && !head {
+				// these bytes exist only as the assembly of that upload: whoever
+				// reads them has seen its completion take effect, and from then on
+				// the upload is gone for everybody
+				h.add("u:"+id, ci, call, ret, mpuIn{Kind: "objseen"}, mpuOut{}, "GET returns the object this upload was completed into")
+				r.probe("a read returned the object of a completed upload (concurrent run)")
+			}
 		case resp.Status == 404 && (head || resp.Code == "NoSuchKey"):
 		case resp.Status == 404 && resp.Code == "NoSuchBucket" && h.bucketMayBeAbsent(call):
 			// the bucket can only be deleted while it is empty: the key is absent
@@ -885,6 +896,7 @@ func (r *Run) execLin(ci, oi int, op *Op) {
 		}
 		sum := md5hex(whole)
 		h.bodies[sum] = whole
+		h.completeSum[sum] = u.ID
 		call := h.tick()
 		resp := r.send(&simnet.Request{Method: "POST", Target: target(u.Bucket, u.Key, url.Values{"uploadId": {u.ID}}),
 			Headers: [][2]string{{"Content-Length", strconv.Itoa(b.Len())}}, Body: b.Bytes()}, op.Faults, r.frag(op))
@@ -929,6 +941,27 @@ func (r *Run) execLin(ci, oi int, op *Op) {
 			r.probe("abort succeeded in a concurrent run")
 		}
 		r.logf("c%d#%d abort up=%s [%d,%d] -> %s", ci, oi, u.ID, call, ret, resp.String())
+	case "mpu-init":
+		// an upload initiated while the others run
+		call := h.tick()
+		resp := r.send(&simnet.Request{Method: "POST", Target: target(op.B, op.Key, url.Values{"uploads": {""}})}, op.Faults, r.frag(op))
+		ret := h.tick()
+		if !mustOK(resp, "initiate multipart upload", call) {
+			return
+		}
+		var x xInitResult
+		if xml.Unmarshal(resp.Body, &x) != nil || x.UploadID == "" {
+			r.linFail("lin.mpu", "InitiateMultipartUpload answers no upload id", "UploadId", trunc(string(resp.Body), 200))
+		}
+		for _, u := range r.uploads {
+			if u.ID == x.UploadID {
+				r.linFail("lin.mpu", "two initiations are given the same upload id", "distinct ids", x.UploadID)
+			}
+		}
+		r.uploads = append(r.uploads, &model.Upload{ID: x.UploadID, Bucket: op.B, Key: op.Key, Parts: map[int]*model.Entity{}})
+		h.created[x.UploadID] = ret
+		r.probe("upload initiated in a concurrent run")
+		r.logf("c%d#%d init %s/%q [%d,%d] -> %s", ci, oi, op.B, op.Key, call, ret, x.UploadID)
 	case "mpu-lsuploads":
 		// ListMultipartUploads: for every upload of the run one observation,
 		// "is pending" or "is not"
@@ -949,8 +982,8 @@ func (r *Run) execLin(ci, oi int, op *Op) {
 			shown[u.UploadID] = u.Key
 		}
 		for _, u := range r.uploads {
-			if u.Bucket != bkt {
-				continue
+			if u.Bucket != bkt || h.created[u.ID] >= call {
+				continue // (initiated while this listing was already under way, or later)
 			}
 			k, ok := shown[u.ID]
 			if ok && k != u.Key {
